@@ -11,6 +11,11 @@ STATUTORY = ['wigm-prf', 'wigm-prf-batch', 'scotland', 'cfer', 'cfer-batch', 'mp
 GREGORY = ['wigm', 'wigm-prf', 'wigm-prf-batch', 'scotland', 'cfer', 'cfer-batch', 'mpls']
 MEEKS = ['meek', 'warren', 'meek-prf']
 
+try:
+    sys.set_int_max_str_digits(0)     # rational Meek produces integers beyond CPython's default str() limit
+except AttributeError:
+    pass
+
 class Timeout(Exception):
     pass
 def _alarm(*a):
@@ -146,11 +151,13 @@ def impl_count(blt, opts, timeout=20, want_E=False):
         res['status'] = 'reject:' + type(ex).__name__; res['msg'] = str(ex)[:200]; return res
     # observe ballots at every non-log action (from outside: no source hook)
     snaps = []
+    snaps_obj = []
     orig_action = record_mod.ElectionRecord.action
     def action(self, tag, msg):
         orig_action(self, tag, msg)
         if tag != 'log':
             snaps.append([(b.index, vraw_only(b.weight)) for b in self.E.ballots])
+            snaps_obj.append([(b.index, b.weight) for b in self.E.ballots])
     record_mod.ElectionRecord.action = action
     exc = None
     old = signal.signal(signal.SIGALRM, _alarm)
@@ -201,7 +208,8 @@ def impl_count(blt, opts, timeout=20, want_E=False):
         else:
             out.append("P ok"); res['status'] = 'ok'
     res['trace'] = "\n".join(out)
-    if want_E: res['E'] = E
+    if want_E:
+        res['E'] = E; res['snaps_obj'] = snaps_obj
     return res
 
 def model_tokens(E, p, fuelbits=22):
@@ -313,7 +321,7 @@ def _worker(args):
             except Exception:
                 out['oracle'].append((name, 'ORACLE-ERROR ' + traceback.format_exc()[-500:]))
         out['stats'] = oracles.trace_stats(r['E'])
-    r.pop('E', None)
+    r.pop('E', None); r.pop('snaps_obj', None)
     if use_model and r['tokens'] is not None:
         if _model is None:
             _model = Model('fast')
